@@ -48,6 +48,11 @@ CHECKS = {
    text="CollapseTimeframe against a bit-exact block fold for streaming, batch and continuous batch collapse (periods 1..10^4, usize::MAX); HeikinAshi outputs validate for valid inputs; Renko driven by generated move sequences placed exactly on, +-1..3 ulps around and far beyond its own thresholds (multi-brick jumps, reversals, zero/huge volumes, brick sizes from EPSILON to just below 1, seven sources) and judged by a brick-chain validity predicate.",
    note="Trusted: fold model, chain predicate with a 16-eps indifference band around thresholds; thresholds read from the serialized instance only to place inputs.",
    ref="DESIGN.md §5 C17"),
+ "C10": dict(
+   technique="exhaustive parameter enumeration + PBT/string fuzzing under catch_unwind with a totality oracle (debug-assertions and overflow-checks on)",
+   text="All 256 PeriodType values for every single-length constructor and MA kind, all 65 536 pairs for the two-parameter methods (thorough), boundary sets for weights/brick sizes/periods/initial values, every configuration field of every indicator through all 256 periods / float boundary set / MA kinds x boundary lengths (other fields default and generated), generated valid configurations on generated streams, and strings for Source/MA/set(): never a panic, !validate => Err, documented-too-small => Err, accepted instances survive valid streams with flat, high==low and zero-volume stretches.",
+   note="Panics are observed with debug-assertions and overflow-checks ON (as the repository's tests run). One known finding (CoppockCurve + SMM + zero-volume source) is listed in known_findings.txt; 8 fix: commits removed the others.",
+   ref="DESIGN.md §5 C10"),
 }
 
 PENDING = {
